@@ -52,8 +52,25 @@ def samples(ai, ctx):
 FROZEN_OF = {'Message': 'FrozenMessage', 'MetaMessage': 'FrozenMetaMessage', 'UnknownMetaMessage': 'FrozenUnknownMetaMessage'}
 
 
+def _seq_kind(v):
+    if isinstance(v, AList):
+        return v.kind if v.kind in ('list', 'tuple', 'bytearray', 'bytes') else None
+    if isinstance(v, (list, tuple, bytearray, bytes)):
+        return type(v).__name__
+    return None
+
+
 def attrs_equal(a, b):
-    return set(a) == set(b) and all(wire.value_equal(a[k], b[k]) or a[k] is b[k] for k in a)
+    """vars(x) == vars(y) as Python compares them: a list never equals a tuple with the same items."""
+    if set(a) != set(b):
+        return False
+    for k in a:
+        ka, kb = _seq_kind(a[k]), _seq_kind(b[k])
+        if ka is not None and kb is not None and ka != kb:
+            return False
+        if not (wire.value_equal(a[k], b[k]) or a[k] is b[k]):
+            return False
+    return True
 
 
 def r15_freeze_thaw(ctx):
@@ -291,10 +308,40 @@ def r15_hash_eq(ctx):
             ok = (isinstance(d_, AList) and d_.kind == 'tuple') or isinstance(d_, tuple)
         ctx.require(ok, 'R15.5', f'UnknownMetaMessage(data={label})', ctx.where(init), f'data given as {label} is stored as {outs}: not normalised to a tuple '
                     '(unhashable, and unequal to what the reader builds)', construct=f'{init.qname}::tuple')
+    # sysex data is a tuple however the message was made - the skip_checks=True constructor path and copy(skip_checks=True, data=...)
+    # included: a frozen message holding the caller's list cannot be hashed, and it changes when the caller's list does
+    for cname in ('Message', 'FrozenMessage'):
+        mc_ = ctx.p.cls(MSG if cname == 'Message' else FZ, cname)
+        for how in ('constructor', 'copy'):
+            holder = {}
+
+            def thunk(mc_=mc_, how=how):
+                lst = AList([1, 2, 3], 'list')
+                holder['lst'] = lst
+                if how == 'constructor':
+                    return ai2.apply(ClassRef(mc_), ['sysex'], {'skip_checks': True, 'data': lst}, None)
+                m0 = ai2.apply(ClassRef(mc_), ['sysex'], {}, None)
+                o_, cp = ctx.p.lookup_method(mc_, 'copy')
+                return ai2.call_function(cp, [m0], {'skip_checks': True, 'data': lst})
+            outs = ai2.explore(thunk)
+            ok = len(outs) == 1 and outs[0].kind == 'return' and isinstance(outs[0].value, AObj)
+            d_ = outs[0].value.attrs.get('data') if ok else None
+            ok = ok and ((isinstance(d_, AList) and d_.kind == 'tuple') or isinstance(d_, tuple)) and d_ is not holder['lst']
+            o_, init_ = ctx.p.lookup_method(mc_, '__init__')
+            ctx.require(ok, 'R15.5', f'{cname}("sysex", skip_checks=True, data=<list>) via {how}', ctx.where(init_),
+                        f'sysex data given as a list with skip_checks=True is stored as {d_!r}{"" if ok or len(outs) == 1 else " " + str(outs)}: the message holds the '
+                        "caller's mutable list (a frozen one is unhashable and changes under its owner's feet)", construct=f'{init_.qname}::sysex-tuple(skip_checks)')
     sd = ctx.p.cls(MSG, 'SysexData')
     ctx.require(any(k.name == 'tuple' or unparse(b) == 'tuple' for k in [sd] for b in sd.node.bases) or
                 any(getattr(k, 'name', '') == 'tuple' for k in ctx.p.mro(sd)), 'R15.5', 'SysexData', f'{sd.module.relpath}:{sd.node.lineno} SysexData',
                 'SysexData is not a tuple', construct=f'{sd.qname}::tuple')
 
 
-RULES = [('R15-freeze-thaw', r15_freeze_thaw), ('R15-frozen', r15_frozen), ('R15-copy', r15_copy), ('R15-hash-eq', r15_hash_eq)]
+def r15_ctor(ctx):
+    """copy(**overrides) is compared with a freshly constructed message: the constructor itself checks what it stores, invalid
+    times included (shared with C03 R03.3: a falsy non-number time must not be replaced by the default before the check)."""
+    from . import c03
+    ctx.borrow(c03.r03_3_init, 'R15.6')
+
+
+RULES = [('R15.6', r15_ctor), ('R15-freeze-thaw', r15_freeze_thaw), ('R15-frozen', r15_frozen), ('R15-copy', r15_copy), ('R15-hash-eq', r15_hash_eq)]
